@@ -924,6 +924,19 @@ class Interp:
             inner = r.field(0)
             if isinstance(inner, Agg) and inner.path == "std::option::Option":
                 return [(NONE if inner.vi == 0 else some(ok(inner.field(0))), st)]
+        if n.rsplit("::", 1)[-1] in ("as_ref", "as_mut", "as_deref", "as_deref_mut") and n.startswith("std::option::Option::<") and len(args) == 1:
+            # Option<T> behind a reference -> Option<reference to the payload>
+            a0 = args[0]
+            v0 = self.read_ref(st, a0) if isinstance(a0, Ref) else a0
+            if isinstance(v0, Agg) and v0.path == "std::option::Option":
+                if v0.vi == 0:
+                    return [(NONE, st)]
+                p0 = v0.field(0)
+                if isinstance(p0, Ref):
+                    return [(some(p0), st)]
+                if isinstance(a0, Ref):
+                    return [(some(Ref(a0.frame, a0.local, a0.proj + (0,))), st)]
+                return [(some(p0), st)]
         # the small conversions between Option and Result, on values of known shape
         if len(args) >= 1 and isinstance(args[0], Agg) and args[0].path == "std::result::Result":
             r0 = args[0]
@@ -962,6 +975,15 @@ class Interp:
                         return self.apply_closure(args[1], [], st, getattr(self, "_cur_depth", 0))
                     if m == "and_then":
                         return self.apply_closure(args[1], [o0.field(0)], st, getattr(self, "_cur_depth", 0))
+        if n in ("core::bool::<impl bool>::then_some", "core::bool::<impl bool>::then") and len(args) == 2 \
+                and not isinstance(args[0], Const) and args[0] is not TOP and getattr(self.dom, "fork", None) is not None:
+            outs_ = []
+            for b_, st_ in self.dom.fork(st, args[0]):
+                r_ = self.std_call(n, [b_, args[1]], st_)
+                if r_ is None:
+                    return None
+                outs_.extend(self._norm(r_))
+            return outs_
         if n in ("core::bool::<impl bool>::then_some", "core::bool::<impl bool>::then") and len(args) == 2 and isinstance(args[0], Const) \
                 and isinstance(args[0].v, (bool, int)):
             if not args[0].v:
